@@ -157,6 +157,24 @@ KF_C03_6_Edge(X, K, e) ==
                       tb == {c \in Range(AllBlocks(X.t.pre)) : cu.tg \in Range(c.ss)}
                   IN  \E c \in tb : x.fn[1] \in Range(c.fn)
 
+\* KF-C03-8: a block falls through into a code block that the batch deletes, and
+\* the data behind that block is deleted too: when the code block goes its
+\* successor is still the data, so the fallthrough edge is parked on a fresh proxy;
+\* deleting the data afterwards does not bring it back to the code that follows now.
+KF_C03_8_Edge(X, e) ==
+  /\ e.ty = "Fallthrough"
+  /\ e.d[1] \in {"proxy", "i"}
+  /\ LET x == UnitAt(X, e.s[1], e.s[2])
+     IN  /\ x.src = "orig"
+         /\ LET sec == SecOfBlock(X.t.pre, x.au)
+                 i == IdxInSec(sec, x.au)
+                 n == Len(sec.blocks)
+                 gone(j) == WholeDeleted(X.t.pre, X.t.reqs, sec.blocks[j].u) /\ ~ToProxy(X.t.reqs, sec.blocks[j].u)
+                 stop == CHOOSE j \in (i + 1)..(n + 1) :
+                            (j = n + 1 \/ ~gone(j)) /\ \A q \in (i + 1)..(j - 1) : gone(q)
+             IN  /\ i < n /\ gone(i + 1) /\ sec.blocks[i + 1].k = "code"
+                 /\ \E q \in (i + 2)..(stop - 1) : sec.blocks[q].k = "data"
+
 \* KF-C01-1: a patch that ends in a label, inserted at the end of a block that is
 \* not followed by code: the trailing empty block keeps the label and
 \* _cleanup_modified_blocks asserts (AssertionError).
@@ -200,6 +218,7 @@ KF_C09_1(X) ==
 Explained(X, K, clause, e) ==
   (IF clause = "C03_Fallthrough" /\ KF_C03_1_Edge(X, e) /\ e \in K.exp.ft THEN {"KF-C03-1"} ELSE {})
   \cup (IF clause = "C03_Fallthrough" /\ KF_C03_2_Edge(X, e) /\ e \notin K.exp.ft THEN {"KF-C03-2"} ELSE {})
+  \cup (IF clause = "C03_Fallthrough" /\ KF_C03_8_Edge(X, e) THEN {"KF-C03-8"} ELSE {})
   \cup (IF clause = "C03_Returns" /\ KF_C03_4_Edge(X, e) THEN {"KF-C03-4"} ELSE {})
   \cup (IF clause = "C03_Returns" /\ KF_C03_5_Edge(X, e) THEN {"KF-C03-5"} ELSE {})
   \cup (IF clause = "C03_Returns" /\ KF_C03_7_Edge(X, e) THEN {"KF-C03-7"} ELSE {})
